@@ -25,6 +25,8 @@ from hpstatic.poly import Canon, I_ATOM
 from hpstatic.terms import (sym, intern, show, subterms, calls_in, TRUE, FALSE,
                             NONE, atoms_of, kw)
 
+MUTATION_TARGETS = {'holopy/core/process/fourier.py': ['fft', 'ifft', 'transform_metadata', 'ft_coord', 'ift_coord'], 'holopy/propagation/convolution_propagation.py': ['propagate', 'trans_func']}
+
 LEVEL = 'other'
 META = dict(
     claimed=True,
@@ -139,7 +141,10 @@ def clause_A(check, prog):
     for n in ast.walk(tm):
         if isinstance(n, ast.Assign) and isinstance(n.targets[0], ast.Subscript):
             tgt = n.targets[0]
-            if isinstance(tgt.slice, ast.Call) and ast.unparse(tgt.slice.func) == 'dims.index' \
+            if isinstance(tgt.slice, ast.Call) and isinstance(tgt.slice.func, ast.Attribute) \
+                    and tgt.slice.func.attr == 'index' and \
+                    ast.unparse(tgt.slice.func.value) == ast.unparse(tgt.value) \
+                    and tgt.slice.args and isinstance(tgt.slice.args[0], ast.Constant) \
                     and isinstance(n.value, ast.Constant):
                 ren[(tgt.slice.args[0].value, n.value.value)] = True
     want = {('x', 'm'), ('y', 'n'), ('m', 'x'), ('n', 'y')}
